@@ -444,11 +444,8 @@ func runC20(c *Check, w *World) {
 			continue
 		}
 		pfx := "R20.3." + n
-		wi := findWindow(c, w, tb, pfx, f, isStep)
-		if wi == nil {
-			continue
-		}
-		checkWindowWasm(c, w, tb, iv, pfx, wi, n == "validateHOTP")
+		// the native window rules: HOTP skips steps below counter zero, TOTP wraps modulo 2^64 like the native loop
+		analyseWindow(c, w, tb, iv, pfx, f, isStep, "", n == "validateHOTP")
 	}
 	// wasm validator core: same shape as native validate()
 	if vw != nil {
@@ -623,58 +620,6 @@ func leftmostConcat(t *Term) *Term {
 		t = t.Args[0]
 	}
 	return t
-}
-
-// checkWindowWasm: the binding's window loops against the native rules; the HOTP binding computes
-// the step counter in signed arithmetic (int64(counter)+i, skipped when negative).
-func checkWindowWasm(c *Check, w *World, tb *TB, iv *IV, pfx string, wi *windowInfo, hotp bool) {
-	fn := FuncName(wi.f)
-	ct := tb.Of(wi.ctrArg)
-	Is := tb.Of(wi.I).String()
-	// signed-sum form?
-	signed := false
-	if ct.Op == "conv" && ct.Sym == "uint64" && ct.Args[0].Op == "bin" && ct.Args[0].Sym == "+" {
-		s := ct.Args[0]
-		var base *Term
-		for k := 0; k < 2; k++ {
-			if s.Args[k].String() == Is && !s.Args[1-k].ContainsStr(Is) {
-				base = s.Args[1-k]
-			}
-		}
-		if base != nil {
-			signed = true
-			// the skip: (sum < 0) leads away from the validation
-			guard := false
-			for _, at := range atomsOf(CondsAt(wi.call.Block())) {
-				if tb.Of(at.X).String() == s.String() && at.Op == token.GEQ {
-					if k, ok := constInt(at.Y); ok && k.Sign() == 0 {
-						guard = true
-					}
-				}
-			}
-			c.Decide(guard, pfx+".4", fn, "underflow-guard", "steps whose counter would be negative are skipped (signed sum tested < 0)", "the signed step counter is converted to unsigned without skipping negative values: steps below zero validate counters near 2^64", w.InstrPos(wi.call))
-			c.OK(pfx+".3", fn, "counter-argument", "step i validates counter centre+i (signed sum of the non-negative JS integer and i)", w.InstrPos(wi.call))
-		}
-	}
-	// run the shared rules; for the signed form the counter rule was judged above
-	if signed {
-		saved := len(c.Obls)
-		checkWindow(c, w, tb, iv, pfx, wi, "", false)
-		// drop the generic counter-argument verdict (form not in the native list)
-		kept := c.Obls[:saved]
-		for _, o := range c.Obls[saved:] {
-			if o.Rule == pfx+".3" && o.Construct == "counter-argument" {
-				continue
-			}
-			kept = append(kept, o)
-		}
-		c.Obls = kept
-	} else {
-		checkWindow(c, w, tb, iv, pfx, wi, "", false)
-		if hotp {
-			c.Unk(pfx+".4", fn, "underflow-guard", "the HOTP binding's step counter is not the signed sum int64(counter)+i with a negative-skip; the guard cannot be matched", w.InstrPos(wi.call))
-		}
-	}
 }
 
 var _ = constant.MakeBool
